@@ -1,11 +1,46 @@
 """C04: address / header fields verbatim (mirsym, see decode_props.c04) + ICAO text round trip (Kani, all 2^24 addresses)
-+ ICAO Display = three {:02x} segments of the three bytes (mirsym, segment level)."""
++ ICAO Display = the six lower-case hex digits of the three bytes, whatever the segmentation (mirsym + z3)."""
 import time
 
 import z3
 
 from checks import framework as fw
 from checks import decode_driver, kani_run
+
+
+def seg_hex_chars(sg):
+    """characters (32-bit code terms) of one rendered segment, or None if it is not fixed-width lower-case hex"""
+    from mirsym.values import Int, to_bv
+    if isinstance(sg, str):
+        return [z3.BitVecVal(ord(c), 32) for c in sg]
+    if sg[0] == 'chars':
+        return [z3.ZeroExt(32 - to_bv(c).size(), to_bv(c)) if to_bv(c).size() < 32 else to_bv(c) for c in sg[1]]
+    if sg[0] != 'val' or not isinstance(sg[2], Int):
+        return None
+    parts = sg[1].split(':')
+    if parts[0] != 'lower_hex':
+        return None
+    flags, width = 0, None
+    for p in parts[1:]:
+        if p.startswith('f'):
+            flags = int(p[1:], 16)
+        elif p.startswith('w'):
+            width = int(p[1:])
+    if width is None or not (flags >> 24) & 1:
+        return None
+    v = to_bv(sg[2])
+    W = v.size()
+    if 4 * width < W:
+        sv = z3.Solver()
+        sv.add(z3.UGE(v, z3.BitVecVal(1 << (4 * width), W)))
+        if sv.check() != z3.unsat:
+            return None
+    out = []
+    for i in reversed(range(width)):
+        nib = z3.Extract(4 * i + 3, 4 * i, v) if 4 * i + 3 < W else z3.BitVecVal(0, 4)
+        n32 = z3.ZeroExt(28, nib)
+        out.append(z3.If(z3.ULT(n32, 10), n32 + 48, n32 + 87))
+    return out
 
 
 def run_job(prog, job):
@@ -18,16 +53,37 @@ def run_job(prog, job):
     ex = Executor(prog, _b.B)
     ls = ex.run_builtin_call('<ICAO as ToString>::to_string', [Ref(('V', icao))])
     ok = len(ls) == 1 and ls[0].kind == 'return' and isinstance(ls[0].value, RString)
+    why = 'rendering forks or fails'
     if ok:
-        segs = ls[0].value.segs
-        ok = (len(segs) == 3 and all(isinstance(s, tuple) and s[0] == 'val' and s[1].startswith('lower_hex') and ':w2' in s[1]
-                                     and (int(s[1].split(':f')[1].split(':')[0], 16) >> 24) & 1 for s in segs)
-              and all(isinstance(s[2], Int) and s[2].v.eq(b) for s, b in zip(segs, bs)))
+        # the rendered characters, whatever the segmentation ({:02x}{:02x}{:02x}, one {:06x} of the 24-bit value, ...):
+        # a zero-padded lower-hex segment of width w prints exactly w digits iff its value is below 16^w
+        got = []
+        for sg in ls[0].value.segs:
+            cs = seg_hex_chars(sg)
+            if cs is None:
+                ok, why = False, 'segment %r is not zero-padded lower-case hex of a value that fits its width' % (sg,)
+                break
+            got += cs
+    if ok:
+        exp = []
+        for b in bs:
+            for nib in (z3.LShR(b, 4), b & 15):
+                n32 = z3.ZeroExt(24, nib)
+                exp.append(z3.If(z3.ULT(n32, 10), n32 + 48, n32 + 87))
+        if len(got) != 6:
+            ok, why = False, '%d characters instead of 6' % len(got)
+        else:
+            sv = z3.Solver()
+            sv.add(z3.Or(*[g != e for g, e in zip(got, exp)]))
+            r = sv.check()
+            ok = r == z3.unsat
+            if not ok:
+                why = 'characters differ from the six lower-case hex digits of the address' + (' for %s' % sv.model() if r == z3.sat else ' (solver: %s)' % r)
     if ok:
         res['discharged'] = 1
     else:
         res['violations'].append({'property': 'C04', 'role': 'icao-display', 'witness': None, 'predicted': None,
-                                  'detail': 'ICAO Display is not three zero-padded two-digit lower-case hex segments of its bytes: %r' % (ls[0].value if ls else None,)})
+                                  'detail': 'ICAO Display is not the six lower-case hex digits of its bytes: %s; rendered %r' % (why, ls[0].value if ls else None)})
     res['samples'].append({'icao_display_segments': str(ls[0].value)[:300] if ls else None})
     return res
 
@@ -46,5 +102,5 @@ def main(tier):
     cov['kani_harnesses'] = kres
     cov['samples'] = (cov.get('samples') or [])[:8] + [s for r in s_results + k_results for s in r['samples']]
     assume = decode_driver.ASSUME + ['ICAO::from_str / u32::from_str_radix: Kani harness over all 2^24 addresses (the real core implementation is executed by CBMC)',
-                                     'core::fmt number formatting ({:02x}) is trusted: the check proves the three segments are the three bytes with spec lower-hex, width 2, zero padded']
+                                     'core::fmt number formatting is trusted for zero-padded lower-hex segments of a value that fits the width ({:02x} of a byte, {:06x} of a 24-bit value): such a segment prints exactly its hex digits']
     fw.finish('C04', tier, t0, results, cov, assume, level='model_checking', replay_fn=lambda v: True if (v.get('kani') or v.get('role') == 'icao-display') else decode_driver.replay_violation(v))
